@@ -44,6 +44,10 @@ const HOLDERS: &[Holder] = &[
     Holder { name: "borrow_entity_ref_into_any", acquire: "let b = world.borrow(e0).unwrap(); let h: &EntityAny = b.entity().into();", use_it: "use_it(h);", mutable: false },
     Holder { name: "archetype_ref", acquire: "let h = world.archetype::<ArchFoo>();", use_it: "use_it(&h.len());", mutable: false },
     Holder { name: "archetype_mut_ref", acquire: "let h = world.archetype_mut::<ArchFoo>();", use_it: "use_it(&h.len());", mutable: true },
+    Holder { name: "view_struct", acquire: "let h = world.view(e0).unwrap();", use_it: "use_it(&h.index());", mutable: true },
+    Holder { name: "arch_view_struct_direct_key", acquire: "let h = world.arch_foo.view(d1).unwrap();", use_it: "use_it(&*h.comp_b);", mutable: true },
+    Holder { name: "borrow_struct", acquire: "let h = world.borrow(e0).unwrap();", use_it: "use_it(&h.index());", mutable: false },
+    Holder { name: "arch_borrow_struct_any_key", acquire: "let h = world.archetype::<ArchFoo>().borrow(e0.into_any()).unwrap();", use_it: "use_it(h.entity());", mutable: false },
     Holder { name: "components_of_view_via_trait", acquire: "let mut v = world.view(e0).unwrap(); let h = View::component_mut::<CompA>(&mut v);", use_it: "h.0 += 1;", mutable: true },
 ];
 
